@@ -158,7 +158,8 @@ func (st *c05State) foreignCheck(s *c05Scenario, prog []c05Action, cur map[strin
 	}
 	st.mu.Unlock()
 	if a == "ok" {
-		return false
+		// link scenarios: the link-aware judge as well (targets of links: content and mode)
+		return st.linkCheck(s, prog, cur, phase, rep, size, where)
 	}
 	bad := unhx(strings.TrimPrefix(a, "bad "))
 	o, wasThere := s.Old[bad]
